@@ -60,7 +60,7 @@ def _gen_list(r, wrapper_free, nv, shared_blocks=None):
     def const():
         if nv:
             return r.choice([["i", 4], ["f", "4.0"], ["i", 2], ["f", "2.0"]])
-        return ["i", r.choice([2, 3, 5, 7])]
+        return ["i", r.choice([2, 3, 5, 7, -1, -2])]   # -1 and -2 hash alike in CPython
 
     def leaf():
         return ["n", "Variable", [["s", r.choice(vars_)]]] if r.random() < 0.7 else const()
